@@ -9,6 +9,14 @@ package chainq
 // (before each restart, after each restart, at the end) EVERY height is queried through every
 // getter named by the property and compared with the record; unknown hashes/heights must not be
 // found.
+//
+// Block sizes are heavy-tailed: besides the 0-6 generated transactions per block, about half of the
+// chains carry one or two BIG blocks (255, 256, 257, 258-400, ~1000 cheap native transfers taken
+// from a per-process pool of prebuilt signed transactions, plus 0-2 generated ones), so that the
+// block record on disk (header + transaction-hash list) and the per-transaction records are
+// exercised far beyond a handful of entries. Big blocks are followed by restarts (cold block
+// cache) and, in a share of the chains, by a run of >= 12 further blocks without a restart and a
+// checkpoint (the block has aged out of the 10-entry block cache and is re-assembled from disk).
 
 import (
 	"fmt"
@@ -25,6 +33,7 @@ import (
 	"github.com/ontio/ontology/core/store/ledgerstore"
 	"github.com/ontio/ontology/core/types"
 	cutils "github.com/ontio/ontology/core/utils"
+	"github.com/ontio/ontology/smartcontract/service/native/ont"
 	nutils "github.com/ontio/ontology/smartcontract/service/native/utils"
 	"pgregory.net/rapid"
 
@@ -64,7 +73,7 @@ func c40VerifyHeight(ls *ledgerstore.LedgerStoreImp, r *c40Rec) error {
 		return fmt.Errorf("GetBlockByHeight(%d): block=%v err=%v, a block was committed at this height", h, b != nil, err)
 	}
 	if !sameBytes(b.ToArray(), r.Raw) {
-		return fmt.Errorf("GetBlockByHeight(%d) differs from the committed block:\n got %s\nwant %s", h, harn.Hex(b.ToArray()), harn.Hex(r.Raw))
+		return fmt.Errorf("GetBlockByHeight(%d) differs from the committed block (%d transactions returned, %d committed):\n got %s\nwant %s", h, len(b.Transactions), len(r.TxHash), harn.Hex(b.ToArray()), harn.Hex(r.Raw))
 	}
 	if b.Hash() != r.Hash {
 		return fmt.Errorf("GetBlockByHeight(%d).Hash() = %s, committed %s", h, b.Hash().ToHexString(), r.Hash.ToHexString())
@@ -74,7 +83,7 @@ func c40VerifyHeight(ls *ledgerstore.LedgerStoreImp, r *c40Rec) error {
 		return fmt.Errorf("GetBlockByHash(hash of height %d): block=%v err=%v", h, b2 != nil, err)
 	}
 	if !sameBytes(b2.ToArray(), r.Raw) {
-		return fmt.Errorf("GetBlockByHash(hash of height %d) differs from the committed block:\n got %s\nwant %s", h, harn.Hex(b2.ToArray()), harn.Hex(r.Raw))
+		return fmt.Errorf("GetBlockByHash(hash of height %d) differs from the committed block (%d transactions returned, %d committed):\n got %s\nwant %s", h, len(b2.Transactions), len(r.TxHash), harn.Hex(b2.ToArray()), harn.Hex(r.Raw))
 	}
 	hd, err := ls.GetHeaderByHash(r.Hash)
 	if err != nil || hd == nil {
@@ -411,12 +420,146 @@ func harnShort(b []byte) []byte {
 	return b
 }
 
+// ---------------------------------------------------------------------------------------------
+// big blocks
+
+// c40Pool is a per-process pool of prebuilt cheap native transfers (each distinct transaction is
+// built and signed once; a chain uses every pool transaction at most once). Pool transaction i is a
+// function of i only: token ont/ong alternating, amount 1 + i%3 (every 8th: 2^62, over every
+// balance), gas price 0, payer/signer and
+// recipient cycling over the four native accounts (mostly the two P-256 keys; the SM2 and Ed25519
+// accounts every 16th), nonce 1<<30 + i (the chain's own builders count nonces from 1). The
+// over-balance transfers fail in execution and are still part of the block.
+var c40Pool []*types.Transaction
+
+func c40PoolShape(i int) (tok common.Address, from, to int, amt uint64) {
+	tok = nutils.OntContractAddress
+	if i%2 == 1 {
+		tok = nutils.OngContractAddress
+	}
+	switch i % 16 {
+	case 7:
+		from = 2
+	case 15:
+		from = 3
+	case 3, 4, 11, 12:
+		from = 1
+	}
+	amt = uint64(1 + i%3)
+	if i%16 == 9 || i%16 == 15 {
+		amt = 1 << 62 // over every balance: fails in execution
+	}
+	return tok, from, (i / 2) % 4, amt
+}
+
+// c40PoolTxs returns pool transactions [off, off+n).
+func c40PoolTxs(nat []*fix.ZooKey, off, n int) ([]*types.Transaction, error) {
+	for i := len(c40Pool); i < off+n; i++ {
+		tok, from, to, amt := c40PoolShape(i)
+		st := &ont.TransferState{From: nat[from].Address, To: nat[to].Address, Value: amt}
+		code, err := cutils.BuildNativeInvokeCode(tok, 0, "transfer", []interface{}{[]*ont.TransferState{st}})
+		if err != nil {
+			return nil, err
+		}
+		mtx := &types.MutableTransaction{GasPrice: 0, GasLimit: 20000, TxType: types.InvokeNeo, Nonce: 1<<30 + uint32(i),
+			Payload: &payload.InvokeCode{Code: code}}
+		tx, err := fix.Sign(mtx, nat[from])
+		if err != nil {
+			return nil, err
+		}
+		c40Pool = append(c40Pool, tx)
+	}
+	return c40Pool[off : off+n], nil
+}
+
+// c40Uni draws an index in [0, n) from fair bits (rapid's integer generators favour small values).
+func c40Uni(t *rapid.T, label string, n int) int {
+	v := 0
+	for span := 1; span < n*8; span *= 2 {
+		v *= 2
+		if rapid.Bool().Draw(t, label) {
+			v++
+		}
+	}
+	return v % n
+}
+
+// c40BigSize draws the size of a big block around the boundaries of the heavy tail.
+func c40BigSize(t *rapid.T) int {
+	switch c40Uni(t, "bigsize", 8) {
+	case 0:
+		return 255
+	case 1:
+		return 256
+	case 2, 4:
+		return 257
+	case 3, 6:
+		return 300
+	case 5:
+		return rapid.IntRange(258, 400).Draw(t, "bigsizeMid")
+	default:
+		return rapid.IntRange(900, 1100).Draw(t, "bigsizeK")
+	}
+}
+
+func c40SizeClass(n int) string {
+	switch {
+	case n <= 6:
+		return fmt.Sprintf("%d", n)
+	case n < 255:
+		return "7-254"
+	case n <= 257:
+		return fmt.Sprintf("%d", n)
+	case n <= 260:
+		return "258-260"
+	case n <= 500:
+		return "261-500"
+	default:
+		return ">500"
+	}
+}
+
 func TestC40_QueriesAgree(t *testing.T) {
 	ev := harn.For("C40")
-	ev.Rule("chains of 5-40 blocks on a solo ledger; block 1 funds two native and two EVM accounts, every other block carries 0-6 generated txs (ONT/ONG transfers by 4 accounts of 3 key types incl. zero/over-balance/unfunded-payer ones, NeoVM deploy and invoke, EIP-155 transfers incl. below-intrinsic-gas and over-balance ones, EIP-155 creations emitting 0-3 logs that return/revert/fault); every block is delivered in a generated mode: ExecuteBlock+SubmitBlock, header-first sync (AddHeaders of its header, then AddBlock of a decoded copy or Execute+Submit), or after header sync announced a DIFFERENT valid block of that height (same parent, later timestamp, a prefix of the txs, bookkeeper-signed) - the committed block stays the oracle; the ledger is closed and reopened after generated heights; at each checkpoint (before and after each restart, and before/after a final restart) every height is read through GetBlockHash, GetBlockByHeight, GetBlockByHash, GetHeaderByHash, GetHeaderByHeight, GetRawHeaderByHash, GetTransaction(+height), IsContainBlock/Transaction and compared with the harness's record of the committed bytes; never-committed hashes and heights above the tip must not be found. GetCurrentHeaderHeight/Hash equal the announced header right after AddHeaders and the tip at checkpoints. Non-trivial = chain with a block of >= 2 txs, a failing tx, an EIP-155 tx, a header-first block, a block committed over an announced alternative, and a restart followed by further blocks; distinct by the full plan")
+	ev.Rule("chains of 5-40 blocks on a solo ledger; block 1 funds two native and two EVM accounts, every other block carries 0-6 generated txs, and half of the chains (then 16-40 blocks long) carry one or two BIG blocks of 255, 256, 257, 300, 258-400 or 900-1100 cheap ONT/ONG transfers from a per-process pool of prebuilt signed txs (4 payers of 3 key types, some failing) plus 0-2 generated txs, the first big block with >= 14 blocks after it and, in half of these chains, no restart for the next 12-14 blocks followed by a checkpoint, so that big blocks are read recently committed, after they aged out of the 10-entry block cache, and after restarts (generated txs: ONT/ONG transfers by 4 accounts of 3 key types incl. zero/over-balance/unfunded-payer ones, NeoVM deploy and invoke, EIP-155 transfers incl. below-intrinsic-gas and over-balance ones, EIP-155 creations emitting 0-3 logs that return/revert/fault); every block is delivered in a generated mode: ExecuteBlock+SubmitBlock, header-first sync (AddHeaders of its header, then AddBlock of a decoded copy or Execute+Submit), or after header sync announced a DIFFERENT valid block of that height (same parent, later timestamp, a prefix of the txs, bookkeeper-signed) - the committed block stays the oracle; the ledger is closed and reopened after generated heights; at each checkpoint (before and after each restart, at generated heights without a restart, and before/after a final restart) every height is read through GetBlockHash, GetBlockByHeight, GetBlockByHash, GetHeaderByHash, GetHeaderByHeight, GetRawHeaderByHash, GetTransaction(+height), IsContainBlock/Transaction and compared with the harness's record of the committed bytes; never-committed hashes and heights above the tip must not be found. GetCurrentHeaderHeight/Hash equal the announced header right after AddHeaders and the tip at checkpoints. Non-trivial = chain with a block of >= 2 txs, a failing tx, an EIP-155 tx, a header-first block, a block committed over an announced alternative, and a restart followed by further blocks; floors require big-block chains (>= 25% of chains, >= 40% of them beyond 256 txs, >= 25% of them read after ageing out of the cache, >= 30% of big-block reads after a restart); distinct by the full plan (pool txs are named by pool range)")
 	bk := fix.Key(fix.KP256, 0)
 	harn.Check(t, 40, 600, func(t *rapid.T) {
-		nBlocks := rapid.IntRange(5, 40).Draw(t, "blocks")
+		// heavy-tailed block sizes: half of the chains carry one or two big blocks; such chains are
+		// long enough for >= 12 blocks to follow the first big one
+		bigChain := rapid.Bool().Draw(t, "bigChain")
+		nBlocks := 0
+		bigAt := map[int]int{} // height -> number of pool transactions
+		quietFrom, quietTo := 0, 0
+		if bigChain {
+			nBlocks = rapid.IntRange(16, 40).Draw(t, "blocksBig")
+			first := 2 + c40Uni(t, "bigAt", nBlocks-15) // 2 .. nBlocks-14
+			bigAt[first] = c40BigSize(t)
+			if rapid.Bool().Draw(t, "secondBig") {
+				second := 2 + c40Uni(t, "bigAt2", nBlocks-1) // 2 .. nBlocks
+				if second != first {
+					n := c40BigSize(t)
+					if n > 500 && bigAt[first] > 500 {
+						n = 300 // at most one ~1000-transaction block per chain (budget)
+					}
+					bigAt[second] = n
+				}
+			}
+			// in half of the big chains no restart is drawn for the 12-14 blocks after the first big
+			// block and a checkpoint follows: the block is read after it has aged out of the block cache
+			if rapid.Bool().Draw(t, "quiet") {
+				quietFrom, quietTo = first, first+12+c40Uni(t, "quietLen", 3)
+				if quietTo > nBlocks {
+					quietTo = nBlocks
+				}
+			}
+		} else {
+			nBlocks = rapid.IntRange(5, 40).Draw(t, "blocks")
+		}
+		poolOff := 0
+		restartSpan := 9 // a restart after a block with probability ~1/10 (rapid favours small draws: ~1/6 observed)
+		if bigChain {
+			restartSpan = 14 // big chains are longer; keeps the number of restarts (the dominant cost) per chain about the same
+		}
 		base, err := os.MkdirTemp("", "c40-")
 		if err != nil {
 			t.Fatal(err)
@@ -439,6 +582,12 @@ func TestC40_QueriesAgree(t *testing.T) {
 		var plan []string
 		var multi, failing, evm, restartMid, altSeen, hdrSeen bool
 		restarts := 0
+		// big blocks committed so far: height, size, and the number of blocks committed after them
+		// since the ledger was last opened (-1 once a restart has intervened: cold cache)
+		type bigSeen struct{ h, n, age int }
+		var bigs []*bigSeen
+		var bigCold, bigAged, bigOver bool
+		var bigSummary []string
 		checkpoint := func(stage string) {
 			// hashes derived from committed ones that were never committed themselves
 			u := append([]common.Uint256{}, unknown...)
@@ -449,6 +598,22 @@ func TestC40_QueriesAgree(t *testing.T) {
 				t.Fatalf("%s (chain %s): %v", stage, strings.Join(plan, "|"), err)
 			}
 			ev.Class("checkpoint:" + stage)
+			for _, g := range bigs {
+				ev.Class("bigread")
+				switch {
+				case g.age < 0:
+					ev.Class("bigread:after-restart")
+					bigCold = true
+				case g.age > 10:
+					ev.Class("bigread:aged>10-blocks")
+					bigAged = true
+					if g.n > 256 {
+						ev.Class("bigread:aged>10-blocks:>256txs")
+					}
+				default:
+					ev.Class("bigread:recent")
+				}
+			}
 		}
 		for b := 1; b <= nBlocks; b++ {
 			var txs []*types.Transaction
@@ -461,6 +626,16 @@ func TestC40_QueriesAgree(t *testing.T) {
 				descs = []string{"fund"}
 			} else {
 				n := rapid.SampledFrom([]int{0, 0, 1, 1, 2, 3, 4, 5, 6}).Draw(t, "ntx")
+				if np := bigAt[b]; np > 0 {
+					ptx, err := c40PoolTxs(env.nat, poolOff, np)
+					if err != nil {
+						t.Fatalf("building pool transactions %d..%d: %v", poolOff, poolOff+np, err)
+					}
+					txs = append(txs, ptx...)
+					descs = append(descs, fmt.Sprintf("P%d+%d", poolOff, np))
+					poolOff += np
+					n = rapid.IntRange(0, 2).Draw(t, "ntxAfterPool")
+				}
 				for j := 0; j < n; j++ {
 					tx, d, err := env.genTx(t)
 					if err != nil {
@@ -490,12 +665,29 @@ func TestC40_QueriesAgree(t *testing.T) {
 			if mode.Kind == "header" {
 				hdrSeen = true
 			}
-			ev.Class(fmt.Sprintf("block:ntx=%d", len(txs)))
+			ev.Class("block:ntx=" + c40SizeClass(len(txs)))
 			if len(txs) >= 2 && b > 1 {
 				multi = true
 			}
+			for _, g := range bigs {
+				if g.age >= 0 {
+					g.age++
+				}
+			}
+			if bigAt[b] > 0 {
+				bigs = append(bigs, &bigSeen{h: b, n: len(txs)})
+				bigSummary = append(bigSummary, fmt.Sprintf("%d%s:%d", b, mode, len(txs)))
+				ev.Class("bigblock")
+				ev.Class("bigblock:delivery:" + mode.Kind)
+				if len(txs) > 256 {
+					bigOver = true
+				}
+			}
 			for i, n := range res.Notify {
 				k := "native"
+				if i < bigAt[b] {
+					k = "pool" // prebuilt cheap transfers of a big block, counted apart from the generated ones
+				}
 				switch txs[i].TxType {
 				case types.EIP155:
 					k, evm = "eip155", true
@@ -506,11 +698,22 @@ func TestC40_QueriesAgree(t *testing.T) {
 					ev.Class("tx:" + k + ":ok")
 				} else {
 					ev.Class("tx:" + k + ":failed")
-					failing = true
+					if k != "pool" {
+						failing = true
+					}
 				}
 				ev.Class("tx:" + k)
 			}
-			if b < nBlocks && rapid.IntRange(0, 9).Draw(t, "restart") == 0 {
+			quiet := b >= quietFrom && b < quietTo
+			if b == quietTo && b < nBlocks {
+				checkpoint("mid-chain")
+				plan = append(plan, "V")
+			} else if b < nBlocks && c40Uni(t, "verify", 16) == 0 {
+				// a checkpoint without a restart
+				checkpoint("mid-chain")
+				plan = append(plan, "V")
+			}
+			if b < nBlocks && !quiet && rapid.IntRange(0, restartSpan).Draw(t, "restart") == 0 {
 				checkpoint("before-restart")
 				if err := ch.Reopen(); err != nil {
 					t.Fatalf("reopen after block %d (chain %s): %v", b, strings.Join(plan, "|"), err)
@@ -519,11 +722,17 @@ func TestC40_QueriesAgree(t *testing.T) {
 				plan = append(plan, "R")
 				restarts++
 				restartMid = true
+				for _, g := range bigs {
+					g.age = -1
+				}
 			}
 		}
 		checkpoint("final-before-restart")
 		if err := ch.Reopen(); err != nil {
 			t.Fatalf("final reopen (chain %s): %v", strings.Join(plan, "|"), err)
+		}
+		for _, g := range bigs {
+			g.age = -1
 		}
 		checkpoint("final-after-restart")
 		if restarts > 3 {
@@ -534,13 +743,29 @@ func TestC40_QueriesAgree(t *testing.T) {
 		if restartMid {
 			ev.Class("chain:restart-mid")
 		}
+		if len(bigs) > 0 {
+			ev.Class("chain:big-block")
+			if bigOver {
+				ev.Class("chain:big-block>256")
+			}
+			if bigCold {
+				ev.Class("chain:big-block-read-after-restart")
+			}
+			if bigAged {
+				ev.Class("chain:big-block-read-aged")
+			}
+		}
 		d := strings.Join(plan, "|")
 		if len(d) > 560 {
-			d = d[:400] + fmt.Sprintf("…#%x", recs[len(recs)-1].Hash[:6])
+			d = d[:380] + fmt.Sprintf("…big[%s]#%x", strings.Join(bigSummary, ","), recs[len(recs)-1].Hash[:6])
 		}
 		ev.Case(multi && failing && evm && restartMid && altSeen && hdrSeen, d)
 	})
 	ev.Floor("chain:restart-mid", "chain", 0.3)
+	ev.Floor("chain:big-block", "chain", 0.25)
+	ev.Floor("chain:big-block>256", "chain:big-block", 0.4)
+	ev.Floor("chain:big-block-read-aged", "chain:big-block", 0.25)
+	ev.Floor("bigread:after-restart", "bigread", 0.3)
 	ev.Floor("delivery:header", "block", 0.15)
 	ev.Floor("delivery:header-alt", "block", 0.15)
 	ev.Floor("delivery:apply", "block", 0.15)
